@@ -183,6 +183,16 @@ def run(ctx: Ctx, rs: RuleSet, tier: str):
               e.args[0]) == counter:
         return True
       if isinstance(e, ast.Name) and scope is not None and (
+          not scope.is_lambda) and e.id not in scope.params:
+        # drawn into a local first: `sid = next(counter)` (once per entry: the
+        # entry is not built in a loop the draw is outside of)
+        d = roles.deref(scope, e, 1)
+        in_loop = any(isinstance(lp, (ast.For, ast.While)) and any(
+            x is e for x in ast.walk(lp)) and not any(
+                x is d for x in ast.walk(lp))
+                      for lp in walk_function(scope.node))
+        return d is not e and not in_loop and fresh_id(d, scope, depth)
+      if isinstance(e, ast.Name) and scope is not None and (
           e.id in scope.params) and depth < 2 and not scope.is_lambda:
         sites_ = [(p.funcs.get(q2), c2) for q2, ss in ctx.cg.call_sites.items()
                   for c2, callees, _ in ss if scope.qualname in callees]
